@@ -24,33 +24,34 @@ import (
 //	updateInvalidates       UpdateDatabase clears the LRU (call chain down to LRUCache.Clear) after replacing Commands
 //	putMatchesGet           Put is called with the very (query, cacheOptions) Get was asked with, and stores the
 //	                        engine's answer for the very (query, options) of the request
+//	fallbackMode            what is hashed when json.Marshal fails: the key struct in Go syntax (%#v), every field
 //	putOnlyNonEmpty         ... and only under len(results) > 0
 //	monitoredDelegates      the monitored search does one extra Get and returns the cached search's answer
 //
 // Shape assertions (x.Assert) say "the code still has a form this extractor understands"; the *content*
 // (which fields, whether the query is normalised ...) is emitted as facts and judged by Lean theorems.
 const (
-	dbPkg    = "internal/database"
-	cachePkg = "internal/cache"
+	c05DbPkg    = "internal/database"
+	c05CachePkg = "internal/cache"
 )
 
-var knownOptTypes = map[string]bool{"int": true, "bool": true, "float64": true, "string": true, "[]string": true, "map[string]float64": true}
+var c05KnownOptTypes = map[string]bool{"int": true, "bool": true, "float64": true, "string": true, "[]string": true, "map[string]float64": true}
 
-type ckSite struct {
+type c05CkSite struct {
 	x    *X
 	site string
 	bad  []string
 }
 
-func (s *ckSite) fail(format string, a ...interface{}) {
+func (s *c05CkSite) fail(format string, a ...interface{}) {
 	s.bad = append(s.bad, fmt.Sprintf(format, a...))
 }
-func (s *ckSite) done() bool {
+func (s *c05CkSite) done() bool {
 	s.x.Assert(s.site, len(s.bad) == 0, "%s", strings.Join(s.bad, "; "))
 	return len(s.bad) == 0
 }
 
-func (x *X) posOf(n ast.Node) string {
+func (x *X) c05PosOf(n ast.Node) string {
 	p := x.Fset.Position(n.Pos())
 	f := p.Filename
 	if i := strings.Index(f, "internal/"); i >= 0 {
@@ -59,7 +60,7 @@ func (x *X) posOf(n ast.Node) string {
 	return fmt.Sprintf("%s:%d", f, p.Line)
 }
 
-func structType(x *X, rel, name string) *ast.StructType {
+func c05StructType(x *X, rel, name string) *ast.StructType {
 	for _, f := range x.Pkg(rel) {
 		for _, d := range f.Decls {
 			gd, ok := d.(*ast.GenDecl)
@@ -79,8 +80,8 @@ func structType(x *X, rel, name string) *ast.StructType {
 	return nil
 }
 
-// method finds a method by receiver type name (pointer or value) and name.
-func method(x *X, rel, recv, name string) *ast.FuncDecl {
+// c05Method finds a c05Method by receiver type name (pointer or value) and name.
+func c05Method(x *X, rel, recv, name string) *ast.FuncDecl {
 	for _, f := range x.Pkg(rel) {
 		for _, d := range f.Decls {
 			fd, ok := d.(*ast.FuncDecl)
@@ -99,24 +100,24 @@ func method(x *X, rel, recv, name string) *ast.FuncDecl {
 	return nil
 }
 
-func exprStr(e ast.Expr) string { return types.ExprString(e) }
+func c05ExprStr(e ast.Expr) string { return types.ExprString(e) }
 
-var wsRun = regexp.MustCompile(`\s+`)
+var c05WsRun = regexp.MustCompile(`\s+`)
 
-// nodeStr prints a node as source with every white-space run collapsed to one blank.
-func nodeStr(x *X, n ast.Node) string {
+// c05NodeStr prints a node as source with every white-space run collapsed to one blank.
+func c05NodeStr(x *X, n ast.Node) string {
 	var sb strings.Builder
 	if err := printer.Fprint(&sb, x.Fset, n); err != nil {
 		return ""
 	}
-	return wsRun.ReplaceAllString(sb.String(), " ")
+	return c05WsRun.ReplaceAllString(sb.String(), " ")
 }
 
 // paramNamed returns the name of the (single) parameter whose type prints as typ, "" if none or several.
-func paramOfType(fd *ast.FuncDecl, typ string) string {
+func c05ParamOfType(fd *ast.FuncDecl, typ string) string {
 	name, n := "", 0
 	for _, p := range fd.Type.Params.List {
-		if exprStr(p.Type) == typ {
+		if c05ExprStr(p.Type) == typ {
 			for _, id := range p.Names {
 				name = id.Name
 				n++
@@ -130,7 +131,7 @@ func paramOfType(fd *ast.FuncDecl, typ string) string {
 }
 
 // assignedIdents: every identifier that is (re)assigned, inc/dec'ed, address-taken or has a field assigned in body.
-func mutatedIdents(body ast.Node) map[string]bool {
+func c05MutatedIdents(body ast.Node) map[string]bool {
 	out := map[string]bool{}
 	root := func(e ast.Expr) string {
 		for {
@@ -186,7 +187,7 @@ func mutatedIdents(body ast.Node) map[string]bool {
 	return out
 }
 
-func defineCount(body ast.Node, name string) int {
+func c05DefineCount(body ast.Node, name string) int {
 	n := 0
 	ast.Inspect(body, func(nd ast.Node) bool {
 		switch s := nd.(type) {
@@ -210,18 +211,18 @@ func defineCount(body ast.Node, name string) int {
 	return n
 }
 
-func isNormExpr(e ast.Expr, arg string) bool {
-	return exprStr(e) == "strings.ToLower(strings.TrimSpace("+arg+"))"
+func c05IsNormExpr(e ast.Expr, arg string) bool {
+	return c05ExprStr(e) == "strings.ToLower(strings.TrimSpace("+arg+"))"
 }
 
-// isCall reports whether e is the call <recvExpr>.<name>(args...) with the given printed receiver and args.
-func isCall(e ast.Expr, fun string, args ...string) bool {
+// c05IsCall reports whether e is the call <recvExpr>.<name>(args...) with the given printed receiver and args.
+func c05IsCall(e ast.Expr, fun string, args ...string) bool {
 	ce, ok := e.(*ast.CallExpr)
-	if !ok || exprStr(ce.Fun) != fun || len(ce.Args) != len(args) || ce.Ellipsis != token.NoPos {
+	if !ok || c05ExprStr(ce.Fun) != fun || len(ce.Args) != len(args) || ce.Ellipsis != token.NoPos {
 		return false
 	}
 	for i, a := range args {
-		if exprStr(ce.Args[i]) != a {
+		if c05ExprStr(ce.Args[i]) != a {
 			return false
 		}
 	}
@@ -230,16 +231,16 @@ func isCall(e ast.Expr, fun string, args ...string) bool {
 
 // topLevelCallAfter: body has, as an unconditional top-level statement, the expression statement `call()`;
 // returns its index or -1.
-func topLevelCall(body *ast.BlockStmt, fun string) int {
+func c05TopLevelCall(body *ast.BlockStmt, fun string) int {
 	for i, st := range body.List {
-		if es, ok := st.(*ast.ExprStmt); ok && isCall(es.X, fun) {
+		if es, ok := st.(*ast.ExprStmt); ok && c05IsCall(es.X, fun) {
 			return i
 		}
 	}
 	return -1
 }
 
-func leanPairs(ps [][2]string) string {
+func c05LeanPairs(ps [][2]string) string {
 	q := make([]string, len(ps))
 	for i, p := range ps {
 		q[i] = "(" + leanStr(p[0]) + ", " + leanStr(p[1]) + ")"
@@ -247,7 +248,7 @@ func leanPairs(ps [][2]string) string {
 	return "[" + strings.Join(q, ", ") + "]"
 }
 
-func leanBool(b bool) string {
+func c05LeanBool(b bool) string {
 	if b {
 		return "true"
 	}
@@ -261,19 +262,19 @@ func init() {
 		// ---- (1) fields of database.SearchOptions -------------------------------------------------
 		var optionFields [][2]string
 		{
-			s := &ckSite{x: x, site: "cachekey:optionFields"}
-			st := structType(x, dbPkg, "SearchOptions")
+			s := &c05CkSite{x: x, site: "cachekey:optionFields"}
+			st := c05StructType(x, c05DbPkg, "SearchOptions")
 			if st == nil {
 				s.fail("type database.SearchOptions struct not found")
 			} else {
 				for _, f := range st.Fields.List {
-					t := exprStr(f.Type)
+					t := c05ExprStr(f.Type)
 					if len(f.Names) == 0 {
 						s.fail("embedded field %s in database.SearchOptions", t)
 					}
 					for _, n := range f.Names {
 						optionFields = append(optionFields, [2]string{n.Name, t})
-						if !knownOptTypes[t] {
+						if !c05KnownOptTypes[t] {
 							s.fail("field %s has type %s, which the option model cannot represent", n.Name, t)
 						}
 					}
@@ -296,14 +297,14 @@ func init() {
 		}
 		var keyFields []keyField
 		{
-			s := &ckSite{x: x, site: "cachekey:keyFields"}
-			st := structType(x, cachePkg, "SearchOptions")
+			s := &c05CkSite{x: x, site: "cachekey:keyFields"}
+			st := c05StructType(x, c05CachePkg, "SearchOptions")
 			if st == nil {
 				s.fail("type cache.SearchOptions struct not found")
 			} else {
 				seen := map[string]bool{}
 				for _, f := range st.Fields.List {
-					t := exprStr(f.Type)
+					t := c05ExprStr(f.Type)
 					if len(f.Names) == 0 {
 						s.fail("embedded field %s in cache.SearchOptions", t)
 					}
@@ -336,7 +337,7 @@ func init() {
 							s.fail("json name %q used twice: encoding/json drops both fields", jn)
 						}
 						seen[strings.ToLower(jn)] = true
-						if !knownOptTypes[t] {
+						if !c05KnownOptTypes[t] {
 							s.fail("field %s has type %s, which the key model cannot represent", n.Name, t)
 						}
 						keyFields = append(keyFields, keyField{n.Name, t, jn, omit})
@@ -352,23 +353,23 @@ func init() {
 
 		// ---- (3) the two conversion literals ---------------------------------------------------------
 		conv := func(site string, fd *ast.FuncDecl) [][2]string {
-			s := &ckSite{x: x, site: site}
+			s := &c05CkSite{x: x, site: site}
 			defer s.done()
 			if fd == nil || fd.Body == nil {
 				s.fail("function not found")
 				return nil
 			}
-			opt := paramOfType(fd, "SearchOptions")
+			opt := c05ParamOfType(fd, "SearchOptions")
 			if opt == "" {
 				s.fail("expected exactly one parameter of type SearchOptions")
 				return nil
 			}
-			if mutatedIdents(fd.Body)[opt] || defineCount(fd.Body, opt) != 0 {
+			if c05MutatedIdents(fd.Body)[opt] || c05DefineCount(fd.Body, opt) != 0 {
 				s.fail("parameter %s is modified or shadowed in the function", opt)
 			}
 			var lits []*ast.CompositeLit
 			ast.Inspect(fd.Body, func(n ast.Node) bool {
-				if cl, ok := n.(*ast.CompositeLit); ok && cl.Type != nil && exprStr(cl.Type) == "cache.SearchOptions" {
+				if cl, ok := n.(*ast.CompositeLit); ok && cl.Type != nil && c05ExprStr(cl.Type) == "cache.SearchOptions" {
 					lits = append(lits, cl)
 				}
 				return true
@@ -382,20 +383,20 @@ func init() {
 			for _, e := range lits[0].Elts {
 				kv, ok := e.(*ast.KeyValueExpr)
 				if !ok {
-					s.fail("%s: positional element in the conversion literal", x.posOf(e))
+					s.fail("%s: positional element in the conversion literal", x.c05PosOf(e))
 					continue
 				}
 				k, ok := kv.Key.(*ast.Ident)
 				if !ok {
-					s.fail("%s: key is not a field name", x.posOf(kv))
+					s.fail("%s: key is not a field name", x.c05PosOf(kv))
 					continue
 				}
 				kf, isKey := keyField_[k.Name]
 				if !isKey {
-					s.fail("%s: %s is not a field of cache.SearchOptions", x.posOf(kv), k.Name)
+					s.fail("%s: %s is not a field of cache.SearchOptions", x.c05PosOf(kv), k.Name)
 				}
 				if seen[k.Name] {
-					s.fail("%s: field %s given twice", x.posOf(kv), k.Name)
+					s.fail("%s: field %s given twice", x.c05PosOf(kv), k.Name)
 				}
 				seen[k.Name] = true
 				se, ok := kv.Value.(*ast.SelectorExpr)
@@ -405,26 +406,26 @@ func init() {
 					id, ok2 = se.X.(*ast.Ident)
 				}
 				if !ok || !ok2 || id.Name != opt {
-					s.fail("%s: value of %s is %s, not a plain selector on the parameter %s", x.posOf(kv), k.Name, exprStr(kv.Value), opt)
+					s.fail("%s: value of %s is %s, not a plain selector on the parameter %s", x.c05PosOf(kv), k.Name, c05ExprStr(kv.Value), opt)
 					continue
 				}
 				ot, isOpt := optField[se.Sel.Name]
 				if !isOpt {
-					s.fail("%s: %s.%s is not a field of database.SearchOptions", x.posOf(kv), opt, se.Sel.Name)
+					s.fail("%s: %s.%s is not a field of database.SearchOptions", x.c05PosOf(kv), opt, se.Sel.Name)
 				} else if isKey && ot != kf.Type {
-					s.fail("%s: %s (%s) copied into %s (%s): type changes are not modelled", x.posOf(kv), se.Sel.Name, ot, k.Name, kf.Type)
+					s.fail("%s: %s (%s) copied into %s (%s): type changes are not modelled", x.c05PosOf(kv), se.Sel.Name, ot, k.Name, kf.Type)
 				}
 				out = append(out, [2]string{k.Name, se.Sel.Name})
 			}
 			return out
 		}
-		cachedFn := method(x, dbPkg, "CachedDatabase", "SearchWithOptionsAndCache")
+		cachedFn := c05Method(x, c05DbPkg, "CachedDatabase", "SearchWithOptionsAndCache")
 		convCached := conv("cachekey:conv:SearchWithOptionsAndCache", cachedFn)
-		convFn := method(x, dbPkg, "MonitoredDatabase", "convertToCacheOptions")
+		convFn := c05Method(x, c05DbPkg, "MonitoredDatabase", "convertToCacheOptions")
 		convMonitored := conv("cachekey:conv:convertToCacheOptions", convFn)
 		{
 			// convertToCacheOptions must consist of `return <literal>` only
-			s := &ckSite{x: x, site: "cachekey:convertToCacheOptions:body"}
+			s := &c05CkSite{x: x, site: "cachekey:convertToCacheOptions:body"}
 			if convFn == nil || convFn.Body == nil || len(convFn.Body.List) != 1 {
 				s.fail("expected a single return statement")
 			} else if rs, ok := convFn.Body.List[0].(*ast.ReturnStmt); !ok || len(rs.Results) != 1 {
@@ -438,10 +439,10 @@ func init() {
 		// ---- (4) option fields read by the engine -----------------------------------------------------
 		var engineReads []string
 		{
-			s := &ckSite{x: x, site: "cachekey:reads"}
+			s := &c05CkSite{x: x, site: "cachekey:reads"}
 			byName := map[string][]*ast.FuncDecl{}
 			imports := map[string]bool{}
-			for _, f := range x.Pkg(dbPkg) {
+			for _, f := range x.Pkg(c05DbPkg) {
 				for _, im := range f.Imports {
 					p := strings.Trim(im.Path.Value, "\"")
 					n := p[strings.LastIndex(p, "/")+1:]
@@ -457,17 +458,17 @@ func init() {
 				}
 			}
 			// *SearchOptions anywhere in the package would defeat the by-value analysis below
-			for _, f := range x.Pkg(dbPkg) {
+			for _, f := range x.Pkg(c05DbPkg) {
 				ast.Inspect(f, func(n ast.Node) bool {
 					if st, ok := n.(*ast.StarExpr); ok {
 						if id, ok := st.X.(*ast.Ident); ok && id.Name == "SearchOptions" {
-							s.fail("%s: *SearchOptions is used; pointer flow is not analysed", x.posOf(n))
+							s.fail("%s: *SearchOptions is used; pointer flow is not analysed", x.c05PosOf(n))
 						}
 					}
 					return true
 				})
 			}
-			root := method(x, dbPkg, "Database", "SearchUniversal")
+			root := c05Method(x, c05DbPkg, "Database", "SearchUniversal")
 			if root == nil {
 				s.fail("(*Database).SearchUniversal not found")
 			}
@@ -498,7 +499,7 @@ func init() {
 				// identifiers holding a SearchOptions value in this function
 				optVars := map[string]bool{}
 				for _, p := range fd.Type.Params.List {
-					if exprStr(p.Type) == "SearchOptions" {
+					if c05ExprStr(p.Type) == "SearchOptions" {
 						for _, id := range p.Names {
 							optVars[id.Name] = true
 						}
@@ -509,7 +510,7 @@ func init() {
 					case *ast.Ident:
 						return optVars[t.Name]
 					case *ast.CompositeLit:
-						return t.Type != nil && exprStr(t.Type) == "SearchOptions"
+						return t.Type != nil && c05ExprStr(t.Type) == "SearchOptions"
 					}
 					return false
 				}
@@ -525,7 +526,7 @@ func init() {
 								}
 							}
 						case *ast.ValueSpec:
-							isOpt := a.Type != nil && exprStr(a.Type) == "SearchOptions"
+							isOpt := a.Type != nil && c05ExprStr(a.Type) == "SearchOptions"
 							for i, id := range a.Names {
 								if isOpt || (i < len(a.Values) && isOptExpr(a.Values[i])) {
 									optVars[id.Name] = true
@@ -533,7 +534,7 @@ func init() {
 							}
 						case *ast.FuncLit:
 							for _, p := range a.Type.Params.List {
-								if exprStr(p.Type) == "SearchOptions" {
+								if c05ExprStr(p.Type) == "SearchOptions" {
 									for _, id := range p.Names {
 										optVars[id.Name] = true
 									}
@@ -564,7 +565,7 @@ func init() {
 						if p.X == id {
 							reads[p.Sel.Name] = true
 							if _, ok := optField[p.Sel.Name]; !ok {
-								s.fail("%s: %s.%s is not a field of SearchOptions (shadowed identifier?)", x.posOf(p), id.Name, p.Sel.Name)
+								s.fail("%s: %s.%s is not a field of SearchOptions (shadowed identifier?)", x.c05PosOf(p), id.Name, p.Sel.Name)
 							}
 							return true
 						}
@@ -586,7 +587,7 @@ func init() {
 							}
 						}
 						if foreign || len(byName[callee]) == 0 {
-							s.fail("%s: %s is passed whole to %s, which is not a function of package database", x.posOf(p), id.Name, exprStr(p.Fun))
+							s.fail("%s: %s is passed whole to %s, which is not a function of package database", x.c05PosOf(p), id.Name, c05ExprStr(p.Fun))
 							return true
 						}
 						argi := -1
@@ -603,14 +604,14 @@ func init() {
 								if nn == 0 {
 									nn = 1
 								}
-								if argi >= k && argi < k+nn && exprStr(pl.Type) == "SearchOptions" {
+								if argi >= k && argi < k+nn && c05ExprStr(pl.Type) == "SearchOptions" {
 									okParam = true
 								}
 								k += nn
 							}
 						}
 						if !okParam {
-							s.fail("%s: %s is passed to %s in a position that is not a SearchOptions parameter", x.posOf(p), id.Name, callee)
+							s.fail("%s: %s is passed to %s in a position that is not a SearchOptions parameter", x.c05PosOf(p), id.Name, callee)
 						}
 						return true
 					case *ast.AssignStmt:
@@ -626,14 +627,14 @@ func init() {
 						}
 						for _, r := range p.Rhs {
 							if r == id {
-								s.fail("%s: %s is stored into %s: flow not analysed", x.posOf(p), id.Name, exprStr(p.Lhs[0]))
+								s.fail("%s: %s is stored into %s: flow not analysed", x.c05PosOf(p), id.Name, c05ExprStr(p.Lhs[0]))
 							}
 						}
 						return true
 					case *ast.ValueSpec, *ast.Field:
 						return true
 					default:
-						s.fail("%s: unrecognised use of %s (%T): the reads analysis cannot follow it", x.posOf(par), id.Name, par)
+						s.fail("%s: unrecognised use of %s (%T): the reads analysis cannot follow it", x.c05PosOf(par), id.Name, par)
 					}
 					return true
 				})
@@ -653,12 +654,12 @@ func init() {
 		// ---- (5) query normalisation: engine and key -------------------------------------------------
 		engineNorm, keyNorm := false, false
 		{
-			s := &ckSite{x: x, site: "cachekey:SearchUniversal:query"}
-			fd := method(x, dbPkg, "Database", "SearchUniversal")
+			s := &c05CkSite{x: x, site: "cachekey:SearchUniversal:query"}
+			fd := c05Method(x, c05DbPkg, "Database", "SearchUniversal")
 			if fd == nil {
 				s.fail("(*Database).SearchUniversal not found")
 			} else {
-				q := paramOfType(fd, "string")
+				q := c05ParamOfType(fd, "string")
 				if q == "" {
 					s.fail("expected exactly one string parameter (the query)")
 				} else {
@@ -675,10 +676,10 @@ func init() {
 							continue
 						}
 						if as, ok := st.(*ast.AssignStmt); ok && as.Tok == token.ASSIGN && len(as.Lhs) == 1 && len(as.Rhs) == 1 &&
-							exprStr(as.Lhs[0]) == q && isNormExpr(as.Rhs[0], q) {
+							c05ExprStr(as.Lhs[0]) == q && c05IsNormExpr(as.Rhs[0], q) {
 							engineNorm = true
 						} else {
-							facts["engineFirstQueryUse"] = x.posOf(st)
+							facts["engineFirstQueryUse"] = x.c05PosOf(st)
 						}
 						break
 					}
@@ -686,14 +687,14 @@ func init() {
 			}
 			s.done()
 		}
-		fallbackFields := []string{}
+		fallbackMode := "unrecognised"
 		{
-			s := &ckSite{x: x, site: "cachekey:generateCacheKey"}
-			fd := method(x, cachePkg, "SearchCache", "generateCacheKey")
+			s := &c05CkSite{x: x, site: "cachekey:generateCacheKey"}
+			fd := c05Method(x, c05CachePkg, "SearchCache", "generateCacheKey")
 			if fd == nil {
 				s.fail("(*SearchCache).generateCacheKey not found")
 			} else {
-				q, o := paramOfType(fd, "string"), paramOfType(fd, "SearchOptions")
+				q, o := c05ParamOfType(fd, "string"), c05ParamOfType(fd, "SearchOptions")
 				if q == "" || o == "" {
 					s.fail("expected parameters (query string, options SearchOptions)")
 				} else {
@@ -706,11 +707,11 @@ func init() {
 						return true
 					})
 					for _, st := range fd.Body.List {
-						if as, ok := st.(*ast.AssignStmt); ok && as.Tok == token.DEFINE && len(as.Lhs) == 1 && len(as.Rhs) == 1 && isNormExpr(as.Rhs[0], q) {
-							nq = exprStr(as.Lhs[0])
+						if as, ok := st.(*ast.AssignStmt); ok && as.Tok == token.DEFINE && len(as.Lhs) == 1 && len(as.Rhs) == 1 && c05IsNormExpr(as.Rhs[0], q) {
+							nq = c05ExprStr(as.Lhs[0])
 						}
 					}
-					mut := mutatedIdents(fd.Body)
+					mut := c05MutatedIdents(fd.Body)
 					keyNorm = uses == 1 && nq != "" && !mut[nq] && !mut[q]
 					if mut[o] {
 						s.fail("the options parameter is modified inside generateCacheKey")
@@ -720,7 +721,7 @@ func init() {
 					{
 						var sb strings.Builder
 						for _, st := range fd.Body.List {
-							sb.WriteString(nodeStr(x, st))
+							sb.WriteString(c05NodeStr(x, st))
 							sb.WriteString("\n")
 						}
 						src = sb.String()
@@ -737,31 +738,35 @@ func init() {
 							s.fail("expected `%s` in generateCacheKey", w)
 						}
 					}
-					// the error fallback and what it carries
+					// the Marshal-error fallback: the same struct in Go syntax (every field), hashed like the JSON text;
+					// the function returns in exactly one place
 					found := false
+					for _, st := range fd.Body.List {
+						is, ok := st.(*ast.IfStmt)
+						if !ok || is.Init != nil || is.Else != nil || c05ExprStr(is.Cond) != "err != nil" || len(is.Body.List) != 1 {
+							continue
+						}
+						as, ok := is.Body.List[0].(*ast.AssignStmt)
+						if ok && as.Tok == token.ASSIGN && len(as.Lhs) == 1 && len(as.Rhs) == 1 && c05ExprStr(as.Lhs[0]) == "jsonData" &&
+							c05ExprStr(as.Rhs[0]) == `[]byte(fmt.Sprintf("%#v", keyData))` {
+							found = true
+						}
+					}
+					if !found {
+						s.fail("expected the Marshal-error fallback `if err != nil { jsonData = []byte(fmt.Sprintf(\"%%#v\", keyData)) }`; the key model mirrors it")
+					}
+					nret := 0
 					ast.Inspect(fd.Body, func(n ast.Node) bool {
-						is, ok := n.(*ast.IfStmt)
-						if !ok || exprStr(is.Cond) != "err != nil" || len(is.Body.List) != 1 {
-							return true
-						}
-						rs, ok := is.Body.List[0].(*ast.ReturnStmt)
-						if !ok || len(rs.Results) != 1 {
-							return true
-						}
-						ce, ok := rs.Results[0].(*ast.CallExpr)
-						if !ok || exprStr(ce.Fun) != "fmt.Sprintf" || len(ce.Args) != 4 {
-							return true
-						}
-						if exprStr(ce.Args[0]) == `"%s%s:%d"` && exprStr(ce.Args[1]) == "sc.keyPrefix" && exprStr(ce.Args[2]) == nq {
-							if se, ok := ce.Args[3].(*ast.SelectorExpr); ok && exprStr(se.X) == o {
-								found = true
-								fallbackFields = append(fallbackFields, se.Sel.Name)
-							}
+						if _, ok := n.(*ast.ReturnStmt); ok {
+							nret++
 						}
 						return true
 					})
-					if !found {
-						s.fail("expected the Marshal-error fallback `return fmt.Sprintf(\"%%s%%s:%%d\", sc.keyPrefix, %s, %s.<Field>)`; the key model mirrors it", nq, o)
+					if nret != 1 {
+						s.fail("expected exactly one return statement in generateCacheKey, found %d", nret)
+					}
+					if found && nret == 1 {
+						fallbackMode = "gosyntax-all-fields"
 					}
 				}
 			}
@@ -771,8 +776,8 @@ func init() {
 		// ---- (6) UpdateDatabase invalidates ------------------------------------------------------------
 		updateInvalidates := false
 		{
-			s := &ckSite{x: x, site: "cachekey:UpdateDatabase"}
-			fd := method(x, dbPkg, "CachedDatabase", "UpdateDatabase")
+			s := &c05CkSite{x: x, site: "cachekey:UpdateDatabase"}
+			fd := c05Method(x, c05DbPkg, "CachedDatabase", "UpdateDatabase")
 			if fd == nil || fd.Body == nil || fd.Recv == nil || len(fd.Recv.List[0].Names) != 1 {
 				s.fail("(*CachedDatabase).UpdateDatabase not found")
 			} else {
@@ -780,7 +785,7 @@ func init() {
 				assignAt := -1
 				for i, st := range fd.Body.List {
 					if as, ok := st.(*ast.AssignStmt); ok && len(as.Lhs) == 1 {
-						l := exprStr(as.Lhs[0])
+						l := c05ExprStr(as.Lhs[0])
 						if l == r+".Database.Commands" || l == r+".Commands" {
 							assignAt = i
 						}
@@ -789,42 +794,42 @@ func init() {
 				if assignAt < 0 {
 					s.fail("expected a top-level assignment to %s.Database.Commands", r)
 				}
-				callAt := topLevelCall(fd.Body, r+".InvalidateCache")
+				callAt := c05TopLevelCall(fd.Body, r+".InvalidateCache")
 				chain := callAt > assignAt && assignAt >= 0
 				// InvalidateCache -> Manager.InvalidateAll -> SearchCache.Invalidate -> LRUCache.Clear
 				links := []struct{ pkg, recv, name, call string }{
-					{dbPkg, "CachedDatabase", "InvalidateCache", "%s.cacheManager.InvalidateAll"},
-					{cachePkg, "Manager", "InvalidateAll", "%s.searchCache.Invalidate"},
-					{cachePkg, "SearchCache", "Invalidate", "%s.cache.Clear"},
+					{c05DbPkg, "CachedDatabase", "InvalidateCache", "%s.cacheManager.InvalidateAll"},
+					{c05CachePkg, "Manager", "InvalidateAll", "%s.searchCache.Invalidate"},
+					{c05CachePkg, "SearchCache", "Invalidate", "%s.cache.Clear"},
 				}
 				for _, l := range links {
-					m := method(x, l.pkg, l.recv, l.name)
+					m := c05Method(x, l.pkg, l.recv, l.name)
 					if m == nil || m.Body == nil || len(m.Recv.List[0].Names) != 1 {
 						s.fail("(*%s).%s not found", l.recv, l.name)
 						chain = false
 						continue
 					}
-					if topLevelCall(m.Body, fmt.Sprintf(l.call, m.Recv.List[0].Names[0].Name)) < 0 {
+					if c05TopLevelCall(m.Body, fmt.Sprintf(l.call, m.Recv.List[0].Names[0].Name)) < 0 {
 						chain = false
 					}
 				}
 				updateInvalidates = chain
-				// no other method of the two wrappers replaces Commands
-				for _, f := range x.Pkg(dbPkg) {
+				// no other c05Method of the two wrappers replaces Commands
+				for _, f := range x.Pkg(c05DbPkg) {
 					for _, d := range f.Decls {
 						m, ok := d.(*ast.FuncDecl)
 						if !ok || m.Recv == nil || m.Body == nil || m == fd {
 							continue
 						}
-						rt := strings.TrimPrefix(exprStr(m.Recv.List[0].Type), "*")
+						rt := strings.TrimPrefix(c05ExprStr(m.Recv.List[0].Type), "*")
 						if rt != "CachedDatabase" && rt != "MonitoredDatabase" {
 							continue
 						}
 						ast.Inspect(m.Body, func(n ast.Node) bool {
 							if as, ok := n.(*ast.AssignStmt); ok {
 								for _, l := range as.Lhs {
-									if strings.HasSuffix(exprStr(l), ".Commands") {
-										s.fail("%s: %s.%s also assigns Commands; only UpdateDatabase is modelled as a replacement", x.posOf(as), rt, m.Name.Name)
+									if strings.HasSuffix(c05ExprStr(l), ".Commands") {
+										s.fail("%s: %s.%s also assigns Commands; only UpdateDatabase is modelled as a replacement", x.c05PosOf(as), rt, m.Name.Name)
 									}
 								}
 							}
@@ -839,13 +844,13 @@ func init() {
 		// ---- (7) Get / Put discipline of the cached search; delegation of the monitored search -----------
 		putMatchesGet, putOnlyNonEmpty, monitoredDelegates := false, false, false
 		{
-			s := &ckSite{x: x, site: "cachekey:get-put"}
+			s := &c05CkSite{x: x, site: "cachekey:get-put"}
 			fd := cachedFn
 			if fd == nil || fd.Body == nil {
 				s.fail("SearchWithOptionsAndCache not found")
 			} else {
-				q, o := paramOfType(fd, "string"), paramOfType(fd, "SearchOptions")
-				mut := mutatedIdents(fd.Body)
+				q, o := c05ParamOfType(fd, "string"), c05ParamOfType(fd, "SearchOptions")
+				mut := c05MutatedIdents(fd.Body)
 				var gets, puts, engines []*ast.CallExpr
 				ast.Inspect(fd.Body, func(n ast.Node) bool {
 					if ce, ok := n.(*ast.CallExpr); ok {
@@ -869,8 +874,8 @@ func init() {
 				} else {
 					g, p := gets[0], puts[0]
 					sameArgs := len(g.Args) == 2 && len(p.Args) == 3 &&
-						exprStr(g.Args[0]) == q && exprStr(p.Args[0]) == q &&
-						exprStr(g.Args[1]) == exprStr(p.Args[1]) && exprStr(g.Fun.(*ast.SelectorExpr).X) == exprStr(p.Fun.(*ast.SelectorExpr).X)
+						c05ExprStr(g.Args[0]) == q && c05ExprStr(p.Args[0]) == q &&
+						c05ExprStr(g.Args[1]) == c05ExprStr(p.Args[1]) && c05ExprStr(g.Fun.(*ast.SelectorExpr).X) == c05ExprStr(p.Fun.(*ast.SelectorExpr).X)
 					co := ""
 					if len(g.Args) == 2 {
 						if id, ok := g.Args[1].(*ast.Ident); ok {
@@ -878,20 +883,20 @@ func init() {
 						}
 					}
 					// cacheOptions: defined once from the literal, never modified; query/options never modified
-					stable := co != "" && defineCount(fd.Body, co) == 1 && !mut[co] && !mut[q] && !mut[o] &&
-						defineCount(fd.Body, q) == 0 && defineCount(fd.Body, o) == 0
+					stable := co != "" && c05DefineCount(fd.Body, co) == 1 && !mut[co] && !mut[q] && !mut[o] &&
+						c05DefineCount(fd.Body, q) == 0 && c05DefineCount(fd.Body, o) == 0
 					// what is stored: convertDBResults(results), results := <recv>.SearchUniversal(query, options), defined once
 					stored := false
 					resName := ""
 					if len(p.Args) == 3 {
-						if ce, ok := p.Args[2].(*ast.CallExpr); ok && exprStr(ce.Fun) == "convertDBResults" && len(ce.Args) == 1 {
-							resName = exprStr(ce.Args[0])
+						if ce, ok := p.Args[2].(*ast.CallExpr); ok && c05ExprStr(ce.Fun) == "convertDBResults" && len(ce.Args) == 1 {
+							resName = c05ExprStr(ce.Args[0])
 						}
 					}
-					if resName != "" && defineCount(fd.Body, resName) == 1 && !mut[resName] {
+					if resName != "" && c05DefineCount(fd.Body, resName) == 1 && !mut[resName] {
 						ast.Inspect(fd.Body, func(n ast.Node) bool {
-							if as, ok := n.(*ast.AssignStmt); ok && as.Tok == token.DEFINE && len(as.Lhs) == 1 && len(as.Rhs) == 1 && exprStr(as.Lhs[0]) == resName {
-								if ce, ok := as.Rhs[0].(*ast.CallExpr); ok && len(ce.Args) == 2 && exprStr(ce.Args[0]) == q && exprStr(ce.Args[1]) == o {
+							if as, ok := n.(*ast.AssignStmt); ok && as.Tok == token.DEFINE && len(as.Lhs) == 1 && len(as.Rhs) == 1 && c05ExprStr(as.Lhs[0]) == resName {
+								if ce, ok := as.Rhs[0].(*ast.CallExpr); ok && len(ce.Args) == 2 && c05ExprStr(ce.Args[0]) == q && c05ExprStr(ce.Args[1]) == o {
 									if se, ok := ce.Fun.(*ast.SelectorExpr); ok && se.Sel.Name == "SearchUniversal" {
 										stored = true
 									}
@@ -904,12 +909,12 @@ func init() {
 					// the Put sits directly inside `if len(results) > 0 { ... }` at top level, and the miss path returns results
 					for i, st := range fd.Body.List {
 						is, ok := st.(*ast.IfStmt)
-						if !ok || is.Init != nil || is.Else != nil || exprStr(is.Cond) != "len("+resName+") > 0" || len(is.Body.List) != 1 {
+						if !ok || is.Init != nil || is.Else != nil || c05ExprStr(is.Cond) != "len("+resName+") > 0" || len(is.Body.List) != 1 {
 							continue
 						}
 						if es, ok := is.Body.List[0].(*ast.ExprStmt); ok && es.X == ast.Expr(p) {
 							if i+1 < len(fd.Body.List) {
-								if rs, ok := fd.Body.List[i+1].(*ast.ReturnStmt); ok && len(rs.Results) == 1 && exprStr(rs.Results[0]) == resName {
+								if rs, ok := fd.Body.List[i+1].(*ast.ReturnStmt); ok && len(rs.Results) == 1 && c05ExprStr(rs.Results[0]) == resName {
 									putOnlyNonEmpty = true
 								}
 							}
@@ -917,8 +922,8 @@ func init() {
 					}
 					// every SearchUniversal call in the function is on (query, options)
 					for _, e := range engines {
-						if len(e.Args) != 2 || exprStr(e.Args[0]) != q || exprStr(e.Args[1]) != o {
-							s.fail("%s: SearchUniversal is called with other arguments than the request's (query, options)", x.posOf(e))
+						if len(e.Args) != 2 || c05ExprStr(e.Args[0]) != q || c05ExprStr(e.Args[1]) != o {
+							s.fail("%s: SearchUniversal is called with other arguments than the request's (query, options)", x.c05PosOf(e))
 						}
 					}
 					// hit path: `if cachedResults, found := searchCache.Get(...); found { return convertCacheResults(cachedResults) }`
@@ -932,9 +937,9 @@ func init() {
 						if !ok || len(as.Lhs) != 2 || len(as.Rhs) != 1 || as.Rhs[0] != ast.Expr(g) {
 							continue
 						}
-						if exprStr(is.Cond) == exprStr(as.Lhs[1]) && len(is.Body.List) == 1 {
+						if c05ExprStr(is.Cond) == c05ExprStr(as.Lhs[1]) && len(is.Body.List) == 1 {
 							if rs, ok := is.Body.List[0].(*ast.ReturnStmt); ok && len(rs.Results) == 1 &&
-								isCall(rs.Results[0], "convertCacheResults", exprStr(as.Lhs[0])) {
+								c05IsCall(rs.Results[0], "convertCacheResults", c05ExprStr(as.Lhs[0])) {
 								hitOK = true
 							}
 						}
@@ -946,9 +951,9 @@ func init() {
 					disOK := false
 					for _, st := range fd.Body.List {
 						is, ok := st.(*ast.IfStmt)
-						if ok && is.Init == nil && strings.HasSuffix(exprStr(is.Cond), ".cacheManager.IsEnabled()") && strings.HasPrefix(exprStr(is.Cond), "!") && len(is.Body.List) == 1 {
+						if ok && is.Init == nil && strings.HasSuffix(c05ExprStr(is.Cond), ".cacheManager.IsEnabled()") && strings.HasPrefix(c05ExprStr(is.Cond), "!") && len(is.Body.List) == 1 {
 							if rs, ok := is.Body.List[0].(*ast.ReturnStmt); ok && len(rs.Results) == 1 {
-								if ce, ok := rs.Results[0].(*ast.CallExpr); ok && len(ce.Args) == 2 && exprStr(ce.Args[0]) == q && exprStr(ce.Args[1]) == o && strings.HasSuffix(exprStr(ce.Fun), ".SearchUniversal") {
+								if ce, ok := rs.Results[0].(*ast.CallExpr); ok && len(ce.Args) == 2 && c05ExprStr(ce.Args[0]) == q && c05ExprStr(ce.Args[1]) == o && strings.HasSuffix(c05ExprStr(ce.Fun), ".SearchUniversal") {
 									disOK = true
 								}
 							}
@@ -960,20 +965,20 @@ func init() {
 				}
 			}
 			// monitored search: one Get on convertToCacheOptions(options), then the cached search on (query, options)
-			md := method(x, dbPkg, "MonitoredDatabase", "SearchWithOptionsAndMonitoring")
+			md := c05Method(x, c05DbPkg, "MonitoredDatabase", "SearchWithOptionsAndMonitoring")
 			if md == nil || md.Body == nil {
 				s.fail("SearchWithOptionsAndMonitoring not found")
 			} else {
-				q, o := paramOfType(md, "string"), paramOfType(md, "SearchOptions")
+				q, o := c05ParamOfType(md, "string"), c05ParamOfType(md, "SearchOptions")
 				r := md.Recv.List[0].Names[0].Name
-				mut := mutatedIdents(md.Body)
-				src := nodeStr(x, md.Body)
+				mut := c05MutatedIdents(md.Body)
+				src := c05NodeStr(x, md.Body)
 				nGet := strings.Count(src, ".Get(")
 				okGet := strings.Contains(src, "cacheOptions := "+r+".convertToCacheOptions("+o+")") && strings.Contains(src, "searchCache.Get("+q+", cacheOptions)")
 				okDel := strings.Contains(src, "results := "+r+".SearchWithOptionsAndCache("+q+", "+o+")")
 				okRet := false
 				if n := len(md.Body.List); n > 0 {
-					if rs, ok := md.Body.List[n-1].(*ast.ReturnStmt); ok && len(rs.Results) == 1 && exprStr(rs.Results[0]) == "results" {
+					if rs, ok := md.Body.List[n-1].(*ast.ReturnStmt); ok && len(rs.Results) == 1 && c05ExprStr(rs.Results[0]) == "results" {
 						okRet = true
 					}
 				}
@@ -984,8 +989,8 @@ func init() {
 				{"CachedDatabase", "SearchWithCache", ".SearchWithOptionsAndCache(query, SearchOptions{Limit: limit})"},
 				{"MonitoredDatabase", "SearchWithMonitoring", ".SearchWithCache(query, limit)"},
 			} {
-				m := method(x, dbPkg, e.recv, e.name)
-				if m == nil || m.Body == nil || !strings.Contains(nodeStr(x, m.Body), e.want) {
+				m := c05Method(x, c05DbPkg, e.recv, e.name)
+				if m == nil || m.Body == nil || !strings.Contains(c05NodeStr(x, m.Body), e.want) {
 					s.fail("(*%s).%s no longer delegates through `%s`", e.recv, e.name, e.want)
 				}
 			}
@@ -994,7 +999,7 @@ func init() {
 
 		// ---- SearchCache.Get / Put / Manager.Enable shapes the layer model mirrors -----------------------
 		{
-			s := &ckSite{x: x, site: "cachekey:SearchCache"}
+			s := &c05CkSite{x: x, site: "cachekey:SearchCache"}
 			type w struct {
 				recv, name string
 				want       []string
@@ -1008,20 +1013,20 @@ func init() {
 				{"Manager", "CleanupExpired", []string{"cm.searchCache.CleanupExpired()"}},
 				{"SearchCache", "Enable", []string{"sc.enabled = enabled"}},
 			} {
-				m := method(x, cachePkg, e.recv, e.name)
+				m := c05Method(x, c05CachePkg, e.recv, e.name)
 				if m == nil || m.Body == nil {
 					s.fail("(*%s).%s not found", e.recv, e.name)
 					continue
 				}
-				src := nodeStr(x, m.Body)
+				src := c05NodeStr(x, m.Body)
 				for _, want := range e.want {
 					if !strings.Contains(src, want) {
 						s.fail("(*%s).%s: expected `%s`", e.recv, e.name, want)
 					}
 				}
 			}
-			nm := x.Func(cachePkg, "NewManager")
-			if nm == nil || !strings.Contains(nodeStr(x, nm.Body), "constants.DefaultCacheCapacity") || !strings.Contains(nodeStr(x, nm.Body), "constants.DefaultCacheTTL") || !strings.Contains(nodeStr(x, nm.Body), "enabled: true") {
+			nm := x.Func(c05CachePkg, "NewManager")
+			if nm == nil || !strings.Contains(c05NodeStr(x, nm.Body), "constants.DefaultCacheCapacity") || !strings.Contains(c05NodeStr(x, nm.Body), "constants.DefaultCacheTTL") || !strings.Contains(c05NodeStr(x, nm.Body), "enabled: true") {
 				s.fail("NewManager: expected NewSearchCache(constants.DefaultCacheCapacity, constants.DefaultCacheTTL) and enabled: true")
 			}
 			s.done()
@@ -1031,30 +1036,30 @@ func init() {
 		var sb strings.Builder
 		sb.WriteString("namespace Wtf.Gen.CacheKey\n\n")
 		sb.WriteString("/-- fields of database.SearchOptions: (name, Go type) -/\n")
-		fmt.Fprintf(&sb, "def optionFields : List (String × String) := %s\n\n", leanPairs(optionFields))
+		fmt.Fprintf(&sb, "def optionFields : List (String × String) := %s\n\n", c05LeanPairs(optionFields))
 		sb.WriteString("/-- fields of cache.SearchOptions: (name, Go type, json name, omitempty) -/\n")
 		sb.WriteString("def keyFields : List (String × String × String × Bool) := [")
 		for i, k := range keyFields {
 			if i > 0 {
 				sb.WriteString(", ")
 			}
-			fmt.Fprintf(&sb, "(%s, %s, %s, %s)", leanStr(k.Name), leanStr(k.Type), leanStr(k.JSON), leanBool(k.Omit))
+			fmt.Fprintf(&sb, "(%s, %s, %s, %s)", leanStr(k.Name), leanStr(k.Type), leanStr(k.JSON), c05LeanBool(k.Omit))
 		}
 		sb.WriteString("]\n\n")
 		sb.WriteString("/-- conversion literal in SearchWithOptionsAndCache: (cache field, option field copied into it) -/\n")
-		fmt.Fprintf(&sb, "def convCached : List (String × String) := %s\n\n", leanPairs(convCached))
+		fmt.Fprintf(&sb, "def convCached : List (String × String) := %s\n\n", c05LeanPairs(convCached))
 		sb.WriteString("/-- conversion literal in convertToCacheOptions (monitored search) -/\n")
-		fmt.Fprintf(&sb, "def convMonitored : List (String × String) := %s\n\n", leanPairs(convMonitored))
+		fmt.Fprintf(&sb, "def convMonitored : List (String × String) := %s\n\n", c05LeanPairs(convMonitored))
 		sb.WriteString("/-- option fields selected in any function of package database reachable from SearchUniversal -/\n")
 		fmt.Fprintf(&sb, "def engineReads : List String := %s\n\n", leanStrList(engineReads))
-		sb.WriteString("/-- option fields that the Marshal-error fallback key carries (besides the normalised query) -/\n")
-		fmt.Fprintf(&sb, "def fallbackFields : List String := %s\n\n", leanStrList(fallbackFields))
-		fmt.Fprintf(&sb, "def engineNormalisesQuery : Bool := %s\n", leanBool(engineNorm))
-		fmt.Fprintf(&sb, "def keyNormalisesQuery : Bool := %s\n", leanBool(keyNorm))
-		fmt.Fprintf(&sb, "def updateInvalidates : Bool := %s\n", leanBool(updateInvalidates))
-		fmt.Fprintf(&sb, "def putMatchesGet : Bool := %s\n", leanBool(putMatchesGet))
-		fmt.Fprintf(&sb, "def putOnlyNonEmpty : Bool := %s\n", leanBool(putOnlyNonEmpty))
-		fmt.Fprintf(&sb, "def monitoredDelegates : Bool := %s\n", leanBool(monitoredDelegates))
+		sb.WriteString("/-- what generateCacheKey hashes when json.Marshal fails (NaN / Inf): the key struct printed with %#v -/\n")
+		fmt.Fprintf(&sb, "def fallbackMode : String := %s\n\n", leanStr(fallbackMode))
+		fmt.Fprintf(&sb, "def engineNormalisesQuery : Bool := %s\n", c05LeanBool(engineNorm))
+		fmt.Fprintf(&sb, "def keyNormalisesQuery : Bool := %s\n", c05LeanBool(keyNorm))
+		fmt.Fprintf(&sb, "def updateInvalidates : Bool := %s\n", c05LeanBool(updateInvalidates))
+		fmt.Fprintf(&sb, "def putMatchesGet : Bool := %s\n", c05LeanBool(putMatchesGet))
+		fmt.Fprintf(&sb, "def putOnlyNonEmpty : Bool := %s\n", c05LeanBool(putOnlyNonEmpty))
+		fmt.Fprintf(&sb, "def monitoredDelegates : Bool := %s\n", c05LeanBool(monitoredDelegates))
 		sb.WriteString("\nend Wtf.Gen.CacheKey\n")
 		x.WriteLean("CacheKey", sb.String())
 
@@ -1067,7 +1072,7 @@ func init() {
 		facts["convCached"] = convCached
 		facts["convMonitored"] = convMonitored
 		facts["engineReads"] = engineReads
-		facts["fallbackFields"] = fallbackFields
+		facts["fallbackMode"] = fallbackMode
 		facts["engineNormalisesQuery"] = engineNorm
 		facts["keyNormalisesQuery"] = keyNorm
 		facts["updateInvalidates"] = updateInvalidates
